@@ -31,6 +31,11 @@ type C20Case struct {
 	Third   gm.G   `json:"third"`
 	Empties []gm.G `json:"empties"`
 	At      []int  `json:"at"`
+	// Deep[i]: how many collection levels empty i descends before it is inserted (members that are
+	// themselves collections); Wrap: the base is nested in this many extra GeometryCollections on BOTH sides
+	// of the comparison, so that the empties land in an inner, non-empty collection.
+	Deep []int `json:"deep,omitempty"`
+	Wrap int   `json:"wrap,omitempty"`
 }
 
 var c20EmptyTypes = []string{gm.Point, gm.LineString, gm.Polygon, gm.MultiPoint, gm.MultiLineString, gm.MultiPolygon, gm.GeometryCollection}
@@ -99,12 +104,14 @@ func c20Gen(t *rapid.T, cx *h.Ctx) C20Case {
 		e := c20Zoo(t, "ins", 1).Norm()
 		c.Empties = append(c.Empties, forceCT(e, 0))
 		c.At = append(c.At, rapid.IntRange(0, 6).Draw(t, "at"))
+		c.Deep = append(c.Deep, rapid.IntRange(0, 3).Draw(t, "deep"))
 	}
+	c.Wrap = rapid.IntRange(0, 2).Draw(t, "wrap")
 	return c
 }
 
 // insertEmpties builds g+ from g.
-func c20Plus(g gm.G, empties []gm.G, at []int) gm.G {
+func c20Plus(g gm.G, empties []gm.G, at []int, deep []int) gm.G {
 	g = g.Norm()
 	admissible := func(parent string, e gm.G) (gm.G, bool) {
 		switch parent {
@@ -124,13 +131,33 @@ func c20Plus(g gm.G, empties []gm.G, at []int) gm.G {
 		// wrap a non-collection into a collection together with the empties
 		out = gm.G{T: gm.GeometryCollection, Mem: []gm.G{g.Clone()}}
 	}
+	isColl := func(n *gm.G) bool {
+		switch n.T {
+		case gm.MultiPoint, gm.MultiLineString, gm.MultiPolygon, gm.GeometryCollection:
+			return true
+		}
+		return false
+	}
 	for i, e := range empties {
-		m, _ := admissible(out.T, e)
-		pos := at[i] % (len(out.Mem) + 1)
-		mem := append([]gm.G{}, out.Mem[:pos]...)
+		node := &out
+		d := 0
+		if i < len(deep) {
+			d = deep[i]
+		}
+		for lvl := 0; lvl < d && len(node.Mem) > 0; lvl++ {
+			nx := &node.Mem[(at[i]+lvl)%len(node.Mem)]
+			*nx = nx.Norm()
+			if !isColl(nx) {
+				break
+			}
+			node = nx
+		}
+		m, _ := admissible(node.T, e)
+		pos := at[i] % (len(node.Mem) + 1)
+		mem := append([]gm.G{}, node.Mem[:pos]...)
 		mem = append(mem, m)
-		mem = append(mem, out.Mem[pos:]...)
-		out.Mem = mem
+		mem = append(mem, node.Mem[pos:]...)
+		node.Mem = mem
 	}
 	return out
 }
@@ -341,7 +368,13 @@ func c20Neutral(g geom.Geometry, pool []geom.Geometry, desc func() string) *h.Fa
 
 func c20Transparency(c C20Case, cx *h.Ctx) *h.Failure {
 	base := c.Base.Norm()
-	plus := c20Plus(base, c.Empties, c.At)
+	for i := 0; i < c.Wrap; i++ {
+		base = gm.G{T: gm.GeometryCollection, Mem: []gm.G{base}}
+	}
+	plus := c20Plus(base, c.Empties, c.At, c.Deep)
+	if c.Wrap > 0 || len(c.Deep) > 0 {
+		cx.Class(fmt.Sprintf("transparency-wrap=%d", c.Wrap))
+	}
 	g, gp, third := base.ToGeom(), plus.ToGeom(), c.Third.ToGeom()
 	desc := func() string {
 		return fmt.Sprintf("\ng  = %s\ng+ = %s\nh  = %s", clip(base.String(), 400), clip(plus.String(), 500), clip(c.Third.String(), 300))
@@ -416,7 +449,7 @@ func c20Transparency(c C20Case, cx *h.Ctx) *h.Failure {
 func TestC20(t *testing.T) {
 	h.Run(t, h.Prop[C20Case]{
 		ID:          "C20",
-		Rule:        "cases = (a) a receiver from the empties zoo (zero value of Geometry and of each concrete type; typed empties in 4 coordinate types; Multi*/collections of 1..3 empties of mixed types; nested empty collections) or a real geometry, 1..3 further arguments from the zoo (or a real geometry) and a stream of small integers: every exported value-receiver method found by reflection on Geometry, the concrete type, its Envelope and its Sequence, and 28 free functions, is invoked with synthesised arguments (valid indices only; MustAsX only on the matching type; Densify > 0): no panic; empty receivers give the documented neutral answers (IsEmpty, Validate, 0 measures, empty Centroid/PointOnSurface/Envelope/ConvexHull/Boundary, Distance undefined, Intersects false, Intersection/Difference empty, Union/SymmetricDifference/Difference(x,empty) = self-union of the other operand); geom.Geometry{} and an explicitly constructed empty GeometryCollection give identical results (canonical bit-exact rendering) for every method and function; (b) transparency: a valid geometry g of C01's domain vs g+ with 1..3 empty members of drawn types inserted at drawn positions (non-collections are wrapped in a collection): IsEmpty, Area/Length/Centroid, Envelope, ConvexHull, Distance/Intersects/DE-9IM/all 9 predicates against a third geometry in both argument orders, and the point sets of Union/Intersection/Difference(both)/SymmetricDifference/UnaryUnion results are identical. non-trivial = an argument tuple containing a zero value or a collection made only of empties",
+		Rule:        "cases = (a) a receiver from the empties zoo (zero value of Geometry and of each concrete type; typed empties in 4 coordinate types; Multi*/collections of 1..3 empties of mixed types; nested empty collections) or a real geometry, 1..3 further arguments from the zoo (or a real geometry) and a stream of small integers: every exported value-receiver method found by reflection on Geometry, the concrete type, its Envelope and its Sequence, and 28 free functions, is invoked with synthesised arguments (valid indices only; MustAsX only on the matching type; Densify > 0): no panic; empty receivers give the documented neutral answers (IsEmpty, Validate, 0 measures, empty Centroid/PointOnSurface/Envelope/ConvexHull/Boundary, Distance undefined, Intersects false, Intersection/Difference empty, Union/SymmetricDifference/Difference(x,empty) = self-union of the other operand); geom.Geometry{} and an explicitly constructed empty GeometryCollection give identical results (canonical bit-exact rendering) for every method and function; (b) transparency: a valid geometry g of C01's domain (optionally nested in 1..2 extra GeometryCollections) vs g+ with 1..3 empty members of drawn types inserted at drawn positions and drawn nesting depths - at top level or inside inner, non-empty collections (non-collections are wrapped in a collection): IsEmpty, Area/Length/Centroid, Envelope, ConvexHull, Distance/Intersects/DE-9IM/all 9 predicates against a third geometry in both argument orders, and the point sets of Union/Intersection/Difference(both)/SymmetricDifference/UnaryUnion results are identical. non-trivial = an argument tuple containing a zero value or a collection made only of empties",
 		Assumptions: []string{"argument synthesis in internal/apienum only produces arguments satisfying documented preconditions", "point-set equality of set-operation results is decided by the exact kernel"},
 		Gen:         c20Gen,
 		Check:       c20Check,
